@@ -38,3 +38,4 @@ func verifNative(name string) int                       { return 0 }
 func verifStringOf(s string) string                     { return s }
 func verifMsgQuotedRune(msg string) (rune, bool)          { return 0, false }
 func verifParseYAML(src string) *yaml.Node               { return nil }
+func verifIsNative() bool                              { return false }
